@@ -4,17 +4,23 @@
 (* DocTmpl (property C18).                                                  *)
 (*                                                                         *)
 (* A behaviour is  Build(base description, via) ; Render(data)+ .           *)
-(* Base descriptions are generated in families:                             *)
-(*   seg     paragraph  a{{xy}}<CJK>{{z}}c  cut into runs at every set of cut   *)
-(*           positions (MinCuts..MaxCuts cuts), run formatting per FmtModes, *)
-(*           placed in body / table cell / nested table cell / a non-loop   *)
-(*           row of a loop table / header / footer                          *)
-(*   extras  the same paragraph with non-text runs (page break, drawing,    *)
-(*           field) and every paragraph property, a few segmentations       *)
+(* Base descriptions are generated in families, selected and bounded by     *)
+(* PLANS (PlanQuick, PlanThorough, PlanSim for generation; PlanMCQuick,     *)
+(* PlanMCThorough for exhaustive checking) - all bounds are stated here:    *)
+(*   seg     a text with placeholders (T0 = a{{xy}}<CJK>{{z}}c, T1..T3) cut *)
+(*           into runs at every set of lo..hi cut positions, run formatting *)
+(*           distinct / same / alternating / none, placed in body / table   *)
+(*           cell / nested table cell / a non-loop row of a loop table /    *)
+(*           header / footer / body+header+footer; data: both variables     *)
+(*           (value classes), only one, none                                *)
+(*   extras  T0 with non-text runs (page break alone or inside a text run,  *)
+(*           drawing, field) at start / middle / end and every paragraph    *)
+(*           property, three segmentations                                  *)
 (*   loop    a table whose middle row is a loop template (markers whole or  *)
-(*           split over runs, in one or two cells) with 0..MaxItems items   *)
+(*           split over runs, in one or two cells) with 0..items items,     *)
+(*           at top level and nested in a cell                              *)
 (*   image   picture placeholders alone / with text / two in a paragraph /  *)
-(*           in a cell / several in the body                                *)
+(*           in a cell / several in the body / among bookmarks              *)
 (* SpecMC checks the reference semantics itself on exactly these cases:     *)
 (* it renders every case with an ideal implementation (IdealDoc) and checks *)
 (* the paragraph-level laws of Subst, that the judge accepts the ideal      *)
